@@ -13,7 +13,7 @@ import os, json, concurrent.futures
 import vf
 
 PROP = "C10"
-THEOREMS = ["read_prefix", "frame_codec_roundtrip", "commit_codec_roundtrip"]
+THEOREMS = ["read_prefix", "frame_codec_roundtrip", "commit_codec_roundtrip", "recover_committed_log"]
 
 PRE = ("From Coq Require Import List NArith.\nFrom Echo Require Import Base.Bytes Model.Wal.\n"
        "Import ListNotations.\nOpen Scope N_scope.\n")
